@@ -198,71 +198,156 @@ structure BlockAcc where
   st     : LState
   outs   : Outputs
   deltas : List (Bytes × List Delta)
+  logs   : List (Bytes × List Op) := []   -- per store that ran: its operation log (what the output file caches)
 
-/-- one module on one block -/
+/-- `skipFromIndex` on the fly: the module has a block filter and the index module's output of this block
+does not satisfy it (or there is no such output) -/
+def filterSkip (maxDepth : Nat) (acc : BlockAcc) (m : ModSpec) : Except LErr Bool :=
+  if m.filterMod = [] then .ok false else
+  match Sqe.parseBytes maxDepth m.filterQ with
+  | .ok e =>
+    match acc.outs.find? (fun p => p.1 == m.filterMod) with
+    | none => .ok true
+    | some p =>
+      match Sqe.keysApply (some (keysOfIndexOutput p.2)) e with
+      | .ok r => .ok (!r)
+      | .error _ => .error .badFilter
+  | _ => .error .badFilter
+
+/-- the execution proper (`executor.run`): the no-input rule, the script, the store flush -/
+def execModule (w : World) (b : Nat) (acc : BlockAcc) (m : ModSpec) : Except LErr BlockAcc :=
+  if canSkip acc.outs acc.deltas m then .ok acc else
+  if m.failAt = some b then .error (.moduleFailure m.name b) else
+  let (digest, extra) := digestInputs w acc.st acc.outs acc.deltas m b
+  match m.kind with
+  | .map =>
+    if acts b m.every m.rem then .ok { acc with outs := acc.outs ++ [(m.name, digest)] }
+    else if m.skipEmpty then .ok acc
+    else .ok { acc with outs := acc.outs ++ [(m.name, [])] }
+  | .index =>
+    let out : Bytes := if acts b m.every m.rem then
+        m.keys.foldl (fun o k => if acts b k.mod k.rem then o ++ [10, UInt8.ofNat k.key.length] ++ k.key else o) []
+      else []
+    .ok { acc with outs := acc.outs ++ [(m.name, out)] }
+  | .store =>
+    let c := cfgOf m
+    match (storeOps m b extra).mapM hostOp with
+    | none => .error (.store .badValue)
+    | some ops =>
+      match execBlock c (stdSem c) (reset (getStore acc.st m.name)) ops with
+      | .error e => .error (.store e)
+      | .ok s' => .ok { acc with st := setStore acc.st m.name s', deltas := acc.deltas ++ [(m.name, s'.deltas)],
+                                 logs := acc.logs ++ [(m.name, readOps s')] }
+
+/-- one module on one block (`RunModule` without cached outputs) -/
 def runModule (w : World) (maxDepth : Nat) (b : Nat) (acc : BlockAcc) (m : ModSpec) : Except LErr BlockAcc :=
   if b < m.init then .ok acc else
-  -- block filter (skipFromIndex, on the fly)
-  let filtered : Except LErr Bool :=
-    if m.filterMod = [] then .ok false else
-    match Sqe.parseBytes maxDepth m.filterQ with
-    | .ok e =>
-      match acc.outs.find? (fun p => p.1 == m.filterMod) with
-      | none => .ok true
-      | some p =>
-        match Sqe.keysApply (some (keysOfIndexOutput p.2)) e with
-        | .ok r => .ok (!r)
-        | .error _ => .error .badFilter
-    | _ => .error .badFilter
-  match filtered with
+  match filterSkip maxDepth acc m with
+  | .error e => .error e
+  | .ok true => .ok acc
+  | .ok false => execModule w b acc m
+
+/-! ### cached outputs (`getCachedOutput` / `applyCachedOutput`) -/
+
+/-- what an output file holds for a module on a block: a map/index output, or a store's operation log -/
+inductive Cached
+  | out (v : Bytes)
+  | log (ops : List Op)
+deriving Inhabited
+
+/-- the cache files seen as a partial function (module, block) ↦ content -/
+abbrev Cache := Bytes → Nat → Option Cached
+
+/-- `RunModule`: after the index check, an existing cached output replaces the execution — a map's
+output is taken as is, a store's operation log is replayed with `ApplyOps` -/
+def runModuleC (w : World) (maxDepth : Nat) (cache : Cache) (b : Nat) (acc : BlockAcc) (m : ModSpec) :
+    Except LErr BlockAcc :=
+  if b < m.init then .ok acc else
+  match filterSkip maxDepth acc m with
   | .error e => .error e
   | .ok true => .ok acc
   | .ok false =>
-    if canSkip acc.outs acc.deltas m then .ok acc else
-    if m.failAt = some b then .error (.moduleFailure m.name b) else
-    let (digest, extra) := digestInputs w acc.st acc.outs acc.deltas m b
-    match m.kind with
-    | .map =>
-      if acts b m.every m.rem then .ok { acc with outs := acc.outs ++ [(m.name, digest)] }
-      else if m.skipEmpty then .ok acc
-      else .ok { acc with outs := acc.outs ++ [(m.name, [])] }
-    | .index =>
-      let out : Bytes := if acts b m.every m.rem then
-          m.keys.foldl (fun o k => if acts b k.mod k.rem then o ++ [10, UInt8.ofNat k.key.length] ++ k.key else o) []
-        else []
-      .ok { acc with outs := acc.outs ++ [(m.name, out)] }
-    | .store =>
+    match cache m.name b, m.kind with
+    | some (.out v), .map => .ok { acc with outs := acc.outs ++ [(m.name, v)] }
+    | some (.out v), .index => .ok { acc with outs := acc.outs ++ [(m.name, v)] }
+    | some (.log ops), .store =>
       let c := cfgOf m
-      match (storeOps m b extra).mapM hostOp with
-      | none => .error (.store .badValue)
-      | some ops =>
-        match execBlock c (stdSem c) (reset (getStore acc.st m.name)) ops with
-        | .error e => .error (.store e)
-        | .ok s' => .ok { acc with st := setStore acc.st m.name s', deltas := acc.deltas ++ [(m.name, s'.deltas)] }
+      match applyOps c (stdSem c) (reset (getStore acc.st m.name)) ops with
+      | .error e => .error (.store e)
+      | .ok s' => .ok { acc with st := setStore acc.st m.name s', deltas := acc.deltas ++ [(m.name, s'.deltas)],
+                                 logs := acc.logs ++ [(m.name, readOps s')] }
+    | _, _ => execModule w b acc m
 
 /-- all modules on one block, in the (dependency) order of the module list; afterwards every store is
 reset (`p.stores.resetStores()`) -/
-def runBlock (w : World) (maxDepth : Nat) (st : LState) (b : Nat) : Except LErr (LState × Outputs) :=
-  match w.foldlM (runModule w maxDepth b) ⟨st, [], []⟩ with
-  | .error e => .error e
-  | .ok acc => .ok (⟨acc.st.stores.map fun p => (p.1, reset p.2)⟩, acc.outs)
+def resetAll (st : LState) : LState := ⟨st.stores.map fun p => (p.1, reset p.2)⟩
 
-/-- the sequential execution over blocks `[lo, hi)`; returns, per block, the output module's payload
-(`none` = no output) — or the block at which a module failed -/
-def runRange (w : World) (maxDepth : Nat) (output : Bytes) : Nat → Nat → LState → List (Nat × Option Bytes) →
-    (List (Nat × Option Bytes)) × Option Nat
-  | 0, _, _, acc => (acc.reverse, none)
-  | n + 1, b, st, acc =>
+/-- what a block leaves in the cache files: the outputs of maps/indexes, the operation logs of stores -/
+structure BlockOut where
+  outs : Outputs
+  logs : List (Bytes × List Op)
+deriving Inhabited
+
+def runBlock (w : World) (maxDepth : Nat) (st : LState) (b : Nat) : Except LErr (LState × BlockOut) :=
+  match w.foldlM (runModule w maxDepth b) ⟨st, [], [], []⟩ with
+  | .error e => .error e
+  | .ok acc => .ok (resetAll acc.st, ⟨acc.outs, acc.logs⟩)
+
+/-- result of executing consecutive blocks: the state reached, the outputs of every module on every
+completed block, and the block at which a module failed (execution stops there) -/
+structure RunRes where
+  st     : LState
+  blocks : List (Nat × BlockOut)
+  failed : Option Nat
+deriving Inhabited
+
+/-- the sequential execution of `n` blocks starting at block `b` from state `st` -/
+def runBlocks (w : World) (maxDepth : Nat) : Nat → Nat → LState → RunRes
+  | 0, _, st => ⟨st, [], none⟩
+  | n + 1, b, st =>
     match runBlock w maxDepth st b with
-    | .error _ => (acc.reverse, some b)
+    | .error _ => ⟨st, [], some b⟩
     | .ok (st', outs) =>
-      runRange w maxDepth output n (b + 1) st' ((b, (outs.find? (fun p => p.1 == output)).map (·.2)) :: acc)
+      let r := runBlocks w maxDepth n (b + 1) st'
+      ⟨r.st, (b, outs) :: r.blocks, r.failed⟩
+
+def runBlockC (w : World) (maxDepth : Nat) (cache : Cache) (st : LState) (b : Nat) : Except LErr (LState × BlockOut) :=
+  match w.foldlM (runModuleC w maxDepth cache b) ⟨st, [], [], []⟩ with
+  | .error e => .error e
+  | .ok acc => .ok (resetAll acc.st, ⟨acc.outs, acc.logs⟩)
+
+def runBlocksC (w : World) (maxDepth : Nat) (cache : Cache) : Nat → Nat → LState → RunRes
+  | 0, _, st => ⟨st, [], none⟩
+  | n + 1, b, st =>
+    match runBlockC w maxDepth cache st b with
+    | .error _ => ⟨st, [], some b⟩
+    | .ok (st', outs) =>
+      let r := runBlocksC w maxDepth cache n (b + 1) st'
+      ⟨r.st, (b, outs) :: r.blocks, r.failed⟩
+
+/-- the cache files a run leaves behind, restricted to any selection `sel` of (module, block) entries:
+"any subset of the files of a complete run" -/
+def cacheOf (blocks : List (Nat × BlockOut)) (sel : Bytes → Nat → Bool) : Cache := fun name b =>
+  if sel name b then
+    match blocks.find? (fun p => p.1 == b) with
+    | none => none
+    | some p =>
+      match p.2.outs.find? (fun q => q.1 == name) with
+      | some q => some (.out q.2)
+      | none =>
+        match p.2.logs.find? (fun q => q.1 == name) with
+        | some q => some (.log q.2)
+        | none => none
+  else none
+
+def outputOf (output : Bytes) (outs : Outputs) : Option Bytes := (outs.find? (fun p => p.1 == output)).map (·.2)
 
 /-- the linear specification: every module runs from the lowest initial block (stores must see every
-block from their initial block on), the client receives the outputs of `[start, stop)` -/
+block from their initial block on), the client receives the output module's outputs of `[start, stop)`
+— and the block at which a module failed, if any -/
 def linearSpec (w : World) (maxDepth : Nat) (output : Bytes) (start stop : Nat) : (List (Nat × Option Bytes)) × Option Nat :=
   let lowest := w.foldl (fun acc m => min acc m.init) start
-  let (all, failed) := runRange w maxDepth output (stop - lowest) lowest ⟨[]⟩ []
-  (all.filter (fun p => start ≤ p.1), failed)
+  let r := runBlocks w maxDepth (stop - lowest) lowest ⟨[]⟩
+  ((r.blocks.filter (fun p => start ≤ p.1)).map (fun p => (p.1, outputOf output p.2.outs)), r.failed)
 
 end SV.Lin
